@@ -62,6 +62,24 @@ pub fn check_samples<R: Read + Seek>(reader: &mut Mp4Reader<R>, m: &Movie, truth
                 }
             }
         }
+        // the same answers in another order (descending, on the same reader): lookups must not depend
+        // on which sample was asked for before
+        for k in (1..=n.min(48)).rev() {
+            let st = &tt.samples[k as usize - 1];
+            match guarded("read_sample", || reader.read_sample(tt.id, k))? {
+                Ok(Some(s)) => {
+                    ensure!(s.start_time == st.start && s.duration == st.dur && s.rendering_offset == st.cts && s.bytes.len() == st.size as usize, format!("{}:reread", p), "track {} sample {} read again after later samples: (start {}, dur {}, cts {}, {} bytes), expected ({}, {}, {}, {})", tt.id, k, s.start_time, s.duration, s.rendering_offset, s.bytes.len(), st.start, st.dur, st.cts, st.size);
+                    let want_bytes = crate::refmp4::movie::expected_bytes(m, ti, k - 1, st.size);
+                    ensure!(s.bytes[..] == want_bytes[..], format!("{}:reread-bytes", p), "track {} sample {} read again after later samples: payload differs", tt.id, k);
+                }
+                Ok(None) => fail!(format!("{}:reread-none", p), "track {} sample {} read again after later samples: None", tt.id, k),
+                Err(e) => fail!(format!("{}:reread-err", p), "track {} sample {} read again after later samples: {}", tt.id, k, e),
+            }
+            match guarded("sample_offset", || reader.sample_offset(tt.id, k))? {
+                Ok(v) => ensure!(v == st.offset, format!("{}:reread-offset", p), "track {} sample {} offset asked again after later samples: {} != {}", tt.id, k, v, st.offset),
+                Err(e) => fail!(format!("{}:reread-offset-err", p), "track {} sample {}: {}", tt.id, k, e),
+            }
+        }
         // ids outside 1..=count never yield a sample (a panic there is C06's business, not ours)
         for k in [0u32, n + 1, n + 2, u32::MAX] {
             if k >= 1 && k <= n {
